@@ -18,6 +18,23 @@ type EscForm struct {
 	Fn     int    // model function id
 	Itr    int    // model iteration count
 	Region string // region keyword for raw-text forms
+	MaxIn  int    // > 0: only inputs up to this length (forms whose output grows geometrically)
+}
+
+// longRuns derives, for every letter that has a doubled form ("hh" beside "h"), the runs of 10 and
+// 11 letters (a two-digit repeat count), restricted to very short inputs.
+func longRuns(forms []EscForm) []EscForm {
+	out := append([]EscForm(nil), forms...)
+	for _, f := range forms {
+		if len(f.Name) != 2 || f.Name[0] != f.Name[1] || f.Itr != 2 || f.Name[0] == 'c' || f.Name[0] == 'a' {
+			continue
+		}
+		for _, n := range []int{10, 11} {
+			rep := strings.Repeat(f.Name[:1], n)
+			out = append(out, EscForm{Name: rep, Tpl: "{%" + rep + "= $V %}", Fn: f.Fn, Itr: n, MaxIn: 2})
+		}
+	}
+	return out
 }
 
 var tplCache = map[string]string{}
